@@ -959,3 +959,14 @@ Example annot_consistent_rejects : annot_consistent (ex_model [DInt 4]) = false.
 Example annot_consistent_accepts : annot_consistent (ex_model [DInt 1; DInt 4]) = true /\ rule_applies (ex_model [DInt 1; DInt 4]) = 1
   /\ derived_count (ex_model [DInt 1; DInt 4]) = 1.
 Proof. vm_compute. auto. Qed.
+
+(* ================================================================= 7. the operator sets the propagation passes act on *)
+(* propagate_unary_shapes_ir copies the first input's shape to the output for UNARY_DATAFLOW_OPS: every such operator
+   has the same-shape rule; propagate_elementwise_shapes_ir refreshes ELEMENTWISE_BINARY_OPS by broadcasting: every such
+   operator broadcasts multidirectionally (Clip: its min/max operands are scalars by the ONNX specification) *)
+Lemma unary_dataflow_ops_same_shape :
+  forallb (fun o => str_mem o first_input_shape_ops) GS_UNARY_DATAFLOW_OPS = true.
+Proof. vm_compute. reflexivity. Qed.
+Lemma elementwise_binary_ops_broadcast :
+  forallb (fun o => str_mem o broadcast_ops || String.eqb o "Clip") GS_ELEMENTWISE_BINARY_OPS = true.
+Proof. vm_compute. reflexivity. Qed.
